@@ -9,12 +9,12 @@ ROOT = os.path.dirname(os.path.dirname(os.path.abspath(__file__)))
 CHECKS = {
     "C01": ("exploration",
             "exhaustive enumeration of all rooted-tree (and bicoloured-tree) order conditions up to the declared order, on the tables and through the real step code via a universal tree ODE",
-            "Complete enumeration of the finite set of order conditions that, by Butcher's theorem, is equivalent to 'order p for every smooth right-hand side, state and small step of either sign': every tree up to the declared order for all 29 Runge-Kutta tables (53 272 conditions for RK1412), bicoloured trees for the 3 splitting schemes, the same conditions evaluated through the real step code in longdouble with h=+1 and h=-1, implicit methods through the real Newton path, and the real Richardson wrappers for 2..5 levels. exhaustive=true: the explored space is the whole space.",
+            "Complete enumeration of the finite set of order conditions that, by Butcher's theorem, is equivalent to 'order p for every smooth right-hand side, state and small step of either sign': every tree up to the declared order for all 29 Runge-Kutta tables (53 272 conditions for RK1412), bicoloured trees for the 3 splitting schemes, the same conditions evaluated through the real step code in longdouble with h = +-1 and the small dyadic steps +-2^-7 (thorough: +-2^-12), implicit methods through the real Newton path, and the real Richardson wrappers for 2..5 levels. exhaustive=true: the explored space is the whole space.",
             "Trusts Butcher's order theorem and a first-order rounding bound (64*2^-53*|tau|*Phi_abs) for float64-stored coefficients; RadauIIA19's order 19 is certified by the simplifying assumptions B(19), C(10), D(9) with trees enumerated to order 14 (quick) / 17 (thorough).",
             "DESIGN.md 4/C01"),
     "C02": ("exploration",
             "exhaustive product enumeration (method x dtype x rhs program x shape x t x signed h) with a stage-residual oracle, plus exhaustive enumeration of scripted nonlinear-solver answer strings (environment answers) up to a length bound",
-            "Every cell of the declared product is executed on the real integrator (two chained calls each) and the property's own formula is re-evaluated in longdouble from the library's stage slopes: explicit residuals to a derived rounding bound, implicit residuals to the documented Newton tolerance, the increment against h*sum(b_i k_i), splitting steps against the drift/kick composition read from the coefficient list and mask. The solver's answers are scripted exhaustively (truthful / forced failure / lying success) to show an unsolved stage system is never accepted.",
+            "Every cell of the declared product is executed on the real integrator (four calls on one integrator object each: a step, its continuation, -h directly after +h, and a step from an unrelated point) and the property's own formula is re-evaluated in longdouble from the library's stage slopes: explicit residuals to a derived rounding bound, implicit residuals to the documented Newton tolerance, the increment against h*sum(b_i k_i), splitting steps against the drift/kick composition read from the coefficient list and mask. The solver's answers are scripted exhaustively (truthful / forced failure / lying success) to show an unsolved stage system is never accepted.",
             "Finite alphabets (6 rhs programs with known Lipschitz bounds, 3 times, 6 signed steps, 3 dtypes); rounding bound 64*eps*((1+L)*scale+|f|); MINPACK/LAPACK trusted.",
             "DESIGN.md 4/C02"),
     "C03": ("model_checking",
@@ -24,7 +24,7 @@ CHECKS = {
             "DESIGN.md 4/C03"),
     "C04": ("exploration",
             "exhaustive product enumeration (fixed-step method x signed span x dt x dtype) with exact comparison against a reference time grid on a dyadic lattice; differential oracle between shifted / reflected runs",
-            "On the lattice every sum the loop forms is exact, so the recorded grid of each of the 23 fixed-step methods is compared bit-for-bit with the spec grid for all 42 spans and 3 step sizes; shift and reflection of an autonomous problem are compared between two real runs (rounding level for explicit/splitting, tolerance level otherwise) for all 32 methods.",
+            "On the lattice every sum the loop forms is exact, so the recorded grid of each of the 23 fixed-step methods is compared bit-for-bit with the spec grid for all 42 spans and 3 step sizes; shift and reflection of an autonomous problem are compared between two real runs (rounding level for explicit/splitting, tolerance level otherwise) for all 32 methods and for Richardson wrappers over explicit, splitting and implicit bases.",
             "Known finding F8 (implicit fixed-step methods grow the step) is pinned by a narrow signature; see known_findings.json.",
             "DESIGN.md 4/C04"),
     "C05": ("exploration",
@@ -44,7 +44,7 @@ CHECKS = {
             "DESIGN.md 4/C07"),
     "C08": ("exploration",
             "exhaustive product enumeration of the same event cells with an oracle evaluated only on recorded rows (strict sign change of g between the two ends of an accepted step => an event of that function inside the step)",
-            "For each of the cells (scales over 12 orders of magnitude, 1..3 (quick) / 1..6 (thorough) simultaneous events, both directions, dense on/off, 5 methods) every recorded step and every event function is examined; the number of demanded sign changes is reported so vacuity is visible.",
+            "For each of the cells (scales over 12 orders of magnitude, 1..3 (quick) / 1..6 (thorough) simultaneous events, both directions, dense on/off, 5 methods, spans near the origin of the time axis and at |t| ~ 32) every recorded step and every event function is examined; the number of demanded sign changes is reported so vacuity is visible.",
             "Sound by construction: demands nothing the statement does not (strict inequality on recorded data).",
             "DESIGN.md 4/C08"),
     "C09": ("model_checking",
@@ -69,12 +69,12 @@ CHECKS = {
             "DESIGN.md 4/C12"),
     "C13": ("model_checking",
             "explicit-state breadth-first search over the full operation alphabet (integrate, integrate(t), dt/rtol/atol/method/tf setters, set_kick_vars, terminal-event run, faulting run, reset) with a differential oracle in every reached state",
-            "In every state reached by a history up to the depth bound: the history is rebuilt twice and must hash bit-identically; the caller's y0 / constants and the class-level coefficient tables are unchanged; a call at the current time changes nothing; reset() gives a pristine system and a subsequent integrate is bit-identical (rows and dense slopes) to a freshly constructed system with the state's current settings. Split-invariance cells compare one-call and several-call runs for 18+ methods.",
+            "In every state reached by a history up to the depth bound: the history is rebuilt twice and must hash bit-identically; the caller's y0 / constants and the class-level coefficient tables are unchanged; a call at the current time changes nothing (and, in separate cells with non-dyadic steps, redundant calls at the REQUESTED target change nothing and the continuation equals a twin's bit for bit); reset() gives a pristine system and a subsequent integrate is bit-identical (rows and dense slopes) to a freshly constructed system with the state's current settings. Split-invariance cells compare one-call and several-call runs for 18+ methods.",
             "Depth 3 (quick) / 4 (thorough), each setter at most once per history; 'same settings' = method, rtol, atol, tf, mask, constructor dt and dense flag.",
             "DESIGN.md 4/C13"),
     "C14": ("exploration",
             "exhaustive product enumeration (function x bracket x scale x tolerance x dtype) for the scalar Brent solver and every window of length 1..16 over the same enumeration for the vectorised solver, each answer certified against the function itself",
-            "7 functions (linear, flat cubic root, quadratic, exp, steep tanh, jump, multi-root sine) x 10 brackets (both orders, root interior / exactly at an end / absent, |x| > 4, narrow) x scales 1e-6..1e9 x 3 tolerances x 3 dtypes: point inside the bracket; sign change => success and a sign change within tolerance of the point; success => |f| <= tol or sign change nearby; vector flags and points agree with the scalar solver on sign-change brackets.",
+            "7 functions (linear, flat cubic root, quadratic, exp, steep tanh, jump, multi-root sine) x 10 brackets (both orders, root interior / exactly at an end / absent, |x| > 4, narrow) x scales 1e-6..1e9 x 3 tolerances x 3 dtypes: point inside the bracket; sign change => success and a sign change within tolerance of the point; success => |f| <= tol or sign change nearby; no sign change and no root at an end point => no success; vector flags and points agree with the scalar solver on sign-change brackets.",
             "'within tolerance' = max(tol, 4 ulp) relative to max(1,|x|); on brackets without a sign change the scalar solver's documented (inf, False) sentinel is accepted.",
             "DESIGN.md 4/C14"),
     "C15": ("exploration",
